@@ -267,6 +267,47 @@ fn check_contract(det: Det, reader: bool, inp: &[u8], ev: &[String]) -> Option<S
     None
 }
 
+/// Second sentence of the property on one printed search (`out` = bytes written for this file).
+/// Returns (detail, class) of a violation. The class is decided by the guard of the Lean partial theorem.
+fn second_sentence(det: Det, events: &[String], out: &[u8], sx: &str, drv: &mut Driver) -> Option<(String, &'static str)> {
+    if !events.iter().any(|e| e.starts_with("bin ")) {
+        return None;
+    }
+    let text = String::from_utf8_lossy(out).to_string();
+    let last = text.lines().last().unwrap_or("");
+    match det {
+        Det::None => None,
+        Det::Quit => {
+            // dropped, or cut off with a warning if lines were already printed
+            if !out.is_empty() && !last.contains("WARNING: stopped searching binary file after match") {
+                let guard = drv.ask(&format!("c14.guard quit {}", sx));
+                let class = if guard == "0" { "lines-printed-without-match-no-warning" } else { "" };
+                return Some((
+                    format!("lines were printed but the output does not end with the warning: {:?}", show(&out[..out.len().min(300)])),
+                    class,
+                ));
+            }
+            None
+        }
+        Det::Convert => {
+            // no notice and no match only if no line matches
+            let matched = events.iter().any(|e| e.starts_with("m "));
+            let notice = text.lines().any(|l| l.contains("binary file matches (found"));
+            let match_line = text.lines().any(|l| {
+                l.strip_prefix("d/f:").map_or(false, |r| r.split(':').next().map_or(false, |n| !n.is_empty() && n.bytes().all(|b| b.is_ascii_digit())))
+            });
+            if matched && !notice && !match_line {
+                let class = "";
+                return Some((
+                    format!("a line matches but neither a match nor the notice was written: {:?}", show(&out[..out.len().min(300)])),
+                    class,
+                ));
+            }
+            None
+        }
+    }
+}
+
 // ---------------------------------------------------------------- bs cases
 
 #[derive(Clone, Debug)]
@@ -398,6 +439,15 @@ fn run_bs(case: &str, c: &Bs, args: &Args, drv: &mut Driver, rep: &mut Report) {
                     show(&run.printed),
                     show(&unhex(&model).unwrap_or_else(|| model.clone().into_bytes()))
                 ),
+            });
+        }
+        if let Some((d, class)) = second_sentence(c.det, &run.events, &run.printed, &sx, drv) {
+            rep.violation(Violation {
+                kind: "impl_vs_spec".into(),
+                class: class.into(),
+                tie: "second sentence of C14 (dropped / cut with warning; notice iff a line matches) on the Standard printer".into(),
+                case: case.to_string(),
+                detail: d,
             });
         }
     } else {
@@ -588,36 +638,20 @@ fn run_cli(case: &str, c: &Cli, args: &Args, drv: &mut Driver, rep: &mut Report)
             });
         }
     } else if detected {
-        // second sentence of the property
+        if let Some((d, class)) = second_sentence(det, &run.events, &stdout, &sx, drv) {
+            rep.violation(Violation {
+                kind: "impl_vs_spec".into(),
+                class: class.into(),
+                tie: "second sentence of C14 (dropped / cut with warning; notice iff a line matches) on rg's stdout".into(),
+                case: case.to_string(),
+                detail: d,
+            });
+        }
         let text = String::from_utf8_lossy(&stdout).to_string();
-        let last = text.lines().last().unwrap_or("");
         if det == Det::Quit {
-            // dropped, or cut off with a warning if lines were already printed
-            if !stdout.is_empty() && !last.contains("WARNING: stopped searching binary file after match") {
-                let class = if c.passthru { "passthru-cut-without-warning" } else { "" };
-                rep.violation(Violation {
-                    kind: "impl_vs_spec".into(),
-                    class: class.into(),
-                    tie: "traversed binary file: dropped, or cut off with a warning if lines were printed".into(),
-                    case: case.to_string(),
-                    detail: format!("lines were printed but the output does not end with the warning: {:?}", show(&stdout[..stdout.len().min(300)])),
-                });
-            }
-            rep.branch(if stdout.is_empty() { "cli:implicit-dropped" } else { "cli:implicit-cut-with-warning" });
+            rep.branch(if stdout.is_empty() { "cli:implicit-dropped" } else { "cli:implicit-cut" });
         } else {
-            // explicit / --binary: a notice iff some line matched; nothing of the file after detection
-            let matched = run.events.iter().any(|e| e.starts_with("m "));
-            let notice = last.contains("binary file matches (found");
-            if matched != notice {
-                rep.violation(Violation {
-                    kind: "impl_vs_spec".into(),
-                    class: "".into(),
-                    tie: "explicit file / --binary: 'binary file matches' notice iff a line matches".into(),
-                    case: case.to_string(),
-                    detail: format!("a line matched: {}, notice printed: {}; stdout {:?}", matched, notice, show(&stdout[..stdout.len().min(300)])),
-                });
-            }
-            rep.branch(if notice { "cli:notice" } else { "cli:no-match-no-notice" });
+            rep.branch(if text.contains("binary file matches (found") { "cli:notice" } else { "cli:no-notice" });
         }
     }
     // ---- -c follows summaryCount
